@@ -31,6 +31,7 @@ def modules():
         from pyyeti import ode
 
         _mods = SimpleNamespace(ode=ode)
+        sut.reset_module_state()  # records the import-time state of the package
     return _mods
 
 
